@@ -182,6 +182,12 @@ class M_padding(object):
 # ---- hmac / hashlib ----------------------------------------------------------------------------------------------------
 class M_hmac(object):
     @staticmethod
+    def compare_digest(a, b):
+        from . import harness as _H
+        r = _H.rope_eq(a, b)
+        return r if isinstance(r, bool) else core.SymBool(r)
+
+    @staticmethod
     def new(key, msg=None, digestmod=None):
         m = M_Mac(key, digestmod)
         if msg is not None:
